@@ -236,6 +236,9 @@ func run(seed int64, n int, dir string, _ []string) {
 		oneHistory(g, o, scratch, bin, h)
 	}
 	blockTemps(g, o, 20+n/10)
+	// output flags must not change what a transaction does (flags.go); path-key collisions inside one transaction (collide.go)
+	flagHistories(hc.NewGen(seed*15485863+11), o, scratch, bin, 40+n/10)
+	collisionCorpus(o, bin, scratch)
 	// an internal failure (injected panic) at a random statement of a procedure is an ending by error (panic.go)
 	panicHistories(hc.NewGen(seed*104729+7), o, scratch, 30+n/8)
 }
@@ -482,6 +485,20 @@ func oneHistory(g *hc.Gen, o *hc.Out, scratch, bin string, h int) {
 		}
 		pr := hc.NewProc(d)
 		pr.P.Tx.AutoCommit = false
+		// output flags (flags.go) are a dimension of the histories: some are set "on the command line" here and
+		// others are switched by SET @@… between the statements; the model's transaction state does not know them
+		var cliFlags []outFlag
+		flagged := g.Intn(2) == 0
+		if flagged {
+			for k, nf := 0, g.Intn(3); k < nf; k++ {
+				f := pickOutFlag(g)
+				if err := pr.P.Tx.SetFlag(f.name, f.on); err != nil {
+					o.Law("harness_statement_failed", map[string]interface{}{"flag": f.name, "error": err.Error()})
+				}
+				cliFlags = append(cliFlags, f)
+				o.Count("flag_cli:" + f.name)
+			}
+		}
 		o.Case("c01.reset "+strings.Join(init, " "), diskState(d, tr)+"|"+tempState(pr, tr))
 		// in half of the histories data is piped in: the STDIN table behaves like a temporary table whose
 		// restore point is the piped data (COMMIT keeps, ROLLBACK and abnormal endings restore)
@@ -578,6 +595,10 @@ func oneHistory(g *hc.Gen, o *hc.Out, scratch, bin string, h int) {
 			var line, sql, got string
 			kinds := []string{"append", "delwhere", "incr", "append", "fail", "incrfail"}
 			switch c := g.Intn(20); {
+			case c < 2 && flagged && g.Intn(2) == 0:
+				// SET @@<output flag>: changes what is printed from here on, and nothing else
+				f, on := pickOutFlag(g), g.Intn(3) > 0
+				line, sql = fmt.Sprintf("c01.setflag %s %v", f.name, on), f.set(on)
 			case c < 5:
 				pickFile(true)
 				line, sql = fmt.Sprintf("c01.select %d", p), fmt.Sprintf("SELECT v FROM %s", tq(p))
@@ -720,6 +741,12 @@ func oneHistory(g *hc.Gen, o *hc.Out, scratch, bin string, h int) {
 					}
 				}
 			}
+			if pr.P.Tx.Flags.Quiet && got == "ok" && (strings.HasPrefix(line, "c01.dml ") || strings.HasPrefix(line, "c01.deljoin ")) {
+				// no statement log under --quiet: which files had a record changed is not known — every file of the statement may have
+				for fp := range changed {
+					changed[fp] = changed[fp] || strings.HasPrefix(line, "c01.deljoin ") || fp == p
+				}
+			}
 			if strings.Contains(line, " setlb ") && got == "ok" && p < nFiles {
 				changed[p] = true // ALTER TABLE … SET rewrites the file with the new attribute
 			}
@@ -807,6 +834,9 @@ func oneHistory(g *hc.Gen, o *hc.Out, scratch, bin string, h int) {
 				}
 				if strings.Contains(s, "1 / (v - v)") {
 					continue // fails or not depending on the table being empty; the "error" ending covers it
+				}
+				if interruptCommit && strings.HasPrefix(st.line, "c01.setflag") {
+					continue // that variant reads csvq's commit log
 				}
 				// the same statement, sometimes reached through a nested statement list
 				if !strings.HasPrefix(s, "DECLARE") && !strings.HasPrefix(s, "COMMIT") && !strings.HasPrefix(s, "ROLLBACK") && st.kind != "failed" {
@@ -976,7 +1006,13 @@ func oneHistory(g *hc.Gen, o *hc.Out, scratch, bin string, h int) {
 				env = append(env, "VERIF_SIGNAL_AT="+pts[0]+"#1:"+g.Pick("SIGINT", "SIGTERM", "SIGQUIT"))
 				lines = lines[:1]
 			}
-			cmd := exec.Command(bin, "--repository", d2, text.String())
+			cmdArgs := []string{"--repository", d2}
+			if !interruptCommit { // (that variant reads csvq's commit log to learn whether the COMMIT was reached)
+				for _, f := range cliFlags {
+					cmdArgs = append(cmdArgs, f.cli...)
+				}
+			}
+			cmd := exec.Command(bin, append(cmdArgs, text.String())...)
 			if stdinData != "" {
 				cmd.Stdin = strings.NewReader(stdinData)
 			}
